@@ -1360,6 +1360,9 @@ impl ContextualHuffmanEncoder {
         if tree_count > (data.len() - offset) / 4 {
             return Err(ZiporaError::invalid_data("Tree count exceeds available data"));
         }
+        if context_map.values().any(|&idx| idx >= tree_count) {
+            return Err(ZiporaError::invalid_data("Context map references a missing tree"));
+        }
 
         // Read trees
         let mut trees = Vec::with_capacity(tree_count);
@@ -1378,6 +1381,9 @@ impl ContextualHuffmanEncoder {
 
             let tree = HuffmanTree::deserialize(tree_data)?;
             trees.push(tree);
+        }
+        if trees.is_empty() {
+            return Err(ZiporaError::invalid_data("Contextual Huffman data contains no trees"));
         }
 
         Ok(Self {
@@ -1985,8 +1991,11 @@ impl ContextualHuffmanDecoder {
 
         // Decode remaining symbols with context
         while result.len() < output_length && byte_idx < encoded_data.len() {
-            // SAFETY: First symbol pushed at line 1862 before loop, so result is always non-empty
-            let context = *result.last().unwrap() as u32;
+            // The first symbol may be missing (empty first tree / truncated stream): nothing to condition on
+            let context = match result.last() {
+                Some(&last) => last as u32,
+                None => break,
+            };
             let tree_idx = self.encoder.context_map.get(&context).copied().unwrap_or(0);
             let tree = &self.encoder.trees[tree_idx];
             
@@ -2023,6 +2032,9 @@ impl ContextualHuffmanDecoder {
         // Decode remaining symbols with 2-symbol context
         while result.len() < output_length && byte_idx < encoded_data.len() {
             let len = result.len();
+            if len < 2 {
+                break; // the two bootstrap symbols could not be decoded
+            }
             let context = ((result[len - 2] as u32) << 8) | (result[len - 1] as u32);
             let tree_idx = self.encoder.context_map.get(&context).copied().unwrap_or(0);
             let tree = &self.encoder.trees[tree_idx];
